@@ -19,14 +19,17 @@ def _alarm(signum, frame):
 
 
 def with_watchdog(seconds, fn, *args, **kwargs):
-    """Run fn(*args, **kwargs) under a SIGALRM horizon (per execution)."""
-    old = signal.signal(signal.SIGALRM, _alarm)
-    signal.setitimer(signal.ITIMER_REAL, seconds)
+    """Run fn(*args, **kwargs) under a per-execution horizon of `seconds` of *CPU time*
+    (ITIMER_PROF: user + system time of this process).  CPU time rather than wall-clock time
+    makes the verdict independent of machine load (a starved process is not a hung one);
+    the code under test performs no blocking I/O, so a non-terminating execution burns CPU."""
+    old = signal.signal(signal.SIGPROF, _alarm)
+    signal.setitimer(signal.ITIMER_PROF, seconds)
     try:
         return fn(*args, **kwargs)
     finally:
-        signal.setitimer(signal.ITIMER_REAL, 0)
-        signal.signal(signal.SIGALRM, old)
+        signal.setitimer(signal.ITIMER_PROF, 0)
+        signal.signal(signal.SIGPROF, old)
 
 
 _FN = None
